@@ -195,7 +195,7 @@ def run_combined(seed):
     rng = engine.item_rng(seed)
     conflict = rng.random() < 0.5
     nparents = 2 if conflict else rng.choice([2, 2, 3])
-    lines, model, path = corpus.gen_combined(rng, conflict=conflict, nparents=nparents)
+    lines, model, path = corpus.gen_combined(rng, conflict=conflict, nparents=nparents, nhunks=rng.choice([1, 1, 2, 3]))
     opts = gen.tagged_styles()
     opts['--paging'] = 'never'
     opts['--syntax-theme'] = rng.choice(['none', 'GitHub'])
@@ -246,6 +246,8 @@ def run_combined(seed):
         tags = {gen.TAG_BY_RGB.get(c_.fg) for c_ in info.row.cells}
         if info.kind == 'hunk':
             seen_hunk = True
+            while seq and seq[-1][0] == 'blank':
+                seq.pop()      # the empty row that separates this hunk's header from the previous hunk
         elif info.kind == 'code':
             seq.append((list(info.code_kinds)[0] if len(info.code_kinds) == 1 else 'mixed', info.code))
         elif 'mc_ours' in tags:
